@@ -44,7 +44,14 @@ TenT = Tup(List(PnT), List(AxisT), XvT, List(XvT))
 PTCHECK = CheckFn("c06-pt", "Model.PTensorCheck", "pt_check",
                   Tup(Nat, List(Nat), List(XvT), List(TenT), Tup(Nat, List(Nat), List(XvT))),
                   imports=_IMP + ["Model.XVal", "Model.PTensor"])
-CHECKFNS = [BASIC, INDEX, UNIFY, ANTI, FRESHEN, ALPHA, CLONE, PRODUCT, TYPED, REPR, PTCHECK]
+_PT2 = Tup(Nat, List(Nat), List(XvT), List(TenT), Tup(Nat, List(Nat), List(XvT)))
+_IMP2 = _IMP + ["Model.XVal", "Model.PTensor", "Model.PTensorCheck", "Model.PTensorOps"]
+PT_SELECT = CheckFn("c06-pt-select", "Model.PTensorOpsCheck", "pt_check_select", _PT2, imports=_IMP2)     # where, stack
+PT_REDUCE = CheckFn("c06-pt-reduce", "Model.PTensorOpsCheck", "pt_check_reduce", _PT2, imports=_IMP2)     # any, dim_to_dense, project
+PT_RESHAPE = CheckFn("c06-pt-reshape", "Model.PTensorOpsCheck", "pt_check_reshape", _PT2, imports=_IMP2)  # reshape, view
+PT_STORAGE = CheckFn("c06-pt-storage", "Model.PTensorOpsCheck", "pt_check_storage", _PT2, imports=_IMP2)  # copy_, to
+PT2 = {"select": PT_SELECT, "reduce": PT_REDUCE, "reshape": PT_RESHAPE, "storage": PT_STORAGE}
+CHECKFNS = [BASIC, INDEX, UNIFY, ANTI, FRESHEN, ALPHA, CLONE, PRODUCT, TYPED, REPR, PTCHECK, PT_SELECT, PT_REDUCE, PT_RESHAPE, PT_STORAGE]
 
 ASSUMPTIONS = [
     "PhysicalAxis objects are numbered by the harness (uid) in order of first appearance; fresh axes created by the library are numbered in creation order as far as that order is observable (antisubst / rename dict order)",
@@ -395,6 +402,31 @@ def run(tier, seed):
                                             call="PatternedTensor.%s" % desc["op"]))
         cov["tensor_level"]["model_checked"] = dict(cases=len(ptvals), verdicts=hist, kernel_reevaluated=nkp)
     if ptvals: jobs.append((PTCHECK, [v for v, _ in ptvals], "c06pt", 12, pt_done))
+    # (ii'') the operations of Model/PTensorOps.v, one check function per group
+    ptvals2 = cov.pop("_ptvals2", [])
+    cov["tensor_level"]["model_checked_ops2"] = {}
+    V2 = {1: "shape differs from the dense specification", 2: "values differ from the dense specification",
+          3: "ZeroDivisionError where the dense operation is defined", 4: "exception where the dense operation is defined",
+          5: "reshape raised RuntimeError on a target that must succeed (adjacent merge / size-1 insertion or removal)",
+          10: "shape differs from the model", 11: "values differ from the model", 12: "model out of fuel", 13: "model failed, implementation succeeded",
+          14: "model succeeded, implementation raised", 15: "storage re-use decision of copy_ differs from the model", 20: "malformed wire tensor", 21: "wrong group"}
+    def make_done(group, gv):
+        def done(codes, nkp):
+            hist = {}
+            for (v, desc), c in zip(gv, codes):
+                hist[c] = hist.get(c, 0) + 1
+                if c == 0: continue
+                violations.append(Violation("%s: %s (verdict %d)" % (desc["op"], V2.get(c, "?"), c), case=desc,
+                                            oracle=("spec_op2 (dense specification on brute-force denotations)" if c < 10 else None),
+                                            corr="corr:pt_check_%s (Model.PTensorOps vs fggs.indices)" % group, failing_input_found=(c < 10),
+                                            call="PatternedTensor.%s" % desc["op"]))
+            ops = {}
+            for v, desc in gv: ops[desc["op"]] = ops.get(desc["op"], 0) + 1
+            cov["tensor_level"]["model_checked_ops2"][group] = dict(cases=len(gv), by_op=ops, verdicts=hist, kernel_reevaluated=nkp)
+        return done
+    for group, cf in PT2.items():
+        gv = [(v, d) for v, d in ptvals2 if OPS.GROUP2[v[0]] == group]
+        if gv: jobs.append((cf, [v for v, _ in gv], "c06pt" + group, 8, make_done(group, gv)))
     # (iii) judge everything the monitor saw
     vals = [v for v in MON.seen.values() if v[0] != "malformed"]
     for v in MON.seen.values():
